@@ -29,9 +29,18 @@ type qfSender struct {
 	remote map[hotstuff.Hash]*hotstuff.Block
 	lies   []*hotstuff.Block // blocks offered in answer to every request
 	rng    *rand.Rand
+	// arrive, when set, is called while a fetch is under way (the store's lock is released then): the requested block arrives by
+	// another path (its proposal is handled while a vote-verification goroutine fetches it) and is stored.  It says whether the
+	// fetch still delivers its answer (the reply won the race against the cancellation) or comes back empty-handed.
+	arrive func(h hotstuff.Hash) (stored, answer bool)
 }
 
 func (s *qfSender) RequestBlock(_ context.Context, h hotstuff.Hash) (*hotstuff.Block, bool) {
+	if s.arrive != nil {
+		if stored, answer := s.arrive(h); stored && !answer {
+			return nil, false
+		}
+	}
 	replies := map[uint32]*hotstuffpb.Block{}
 	id := uint32(1)
 	for _, l := range s.lies {
@@ -210,7 +219,22 @@ func c13(args []string) error {
 				o.emit(obj{"op": "store", "b": op[1]})
 			case 1: // get (through the fetch path when not local)
 				hv := have()
+				if rng.Intn(3) == 0 { // the block arrives by another path while it is being fetched
+					snd.arrive = func(h hotstuff.Hash) (bool, bool) {
+						id, known := idOf[h]
+						if !known || h != blk[op[1]].Hash() {
+							return false, false
+						}
+						s.BC.Store(blk[id])
+						answer := rng.Intn(2) == 0
+						o.emit(obj{"op": "store", "b": id, "during": "fetch", "answered": answer})
+						hv = append(hv, id)
+						sort.Ints(hv)
+						return true, answer
+					}
+				}
 				b, ok := s.BC.Get(blk[op[1]].Hash())
+				snd.arrive = nil
 				got, hashOK := -1, true
 				if ok {
 					var known bool
